@@ -98,8 +98,16 @@ func fanScenario(s *hx.Seq) {
 			s.Trans(len(path))
 			init := &traits.FanSpeed{Preset: table[0].Name, Percentage: table[0].Percentage}
 			m := fanspeedpb.NewModel(fanspeedpb.WithPresets(table...), fanspeedpb.WithInitialFanSpeed(init))
-			srv := fanspeedpb.NewModelServer(m)
 			name := fmt.Sprintf("table=%s %s", tn, names(path, an))
+			if len(path) > 0 && path[0]%2 == 1 {
+				// configured with the preset table alone: the model has to start on a row of ITS table
+				m = fanspeedpb.NewModel(fanspeedpb.WithPresets(table...))
+				name += " (no initial fan speed given)"
+				if why := consistent(m.FanSpeed(), table); why != "" && len(path) == 1 {
+					s.Fail("fan-initial "+name, fmt.Sprintf("a model configured with presets %v starts as %v: %s", table, m.FanSpeed(), why), nil)
+				}
+			}
+			srv := fanspeedpb.NewModelServer(m)
 			s.State(name)
 			for step, ri := range path {
 				r := reqs[ri]
